@@ -63,6 +63,13 @@ def r1_interval(ctx):
             if isinstance(x, (ast.ListComp, ast.DictComp, ast.GeneratorExp, ast.SetComp)):
                 comp = x
         if comp is None:
+            # a temporary holding the comprehension (also what the loader makes of a dictionary filled by a loop)
+            for x in ast.walk(e):
+                if isinstance(x, ast.Name):
+                    dv = astx.unique_def(f.node, x.id)
+                    if isinstance(dv, (ast.ListComp, ast.DictComp, ast.GeneratorExp, ast.SetComp)):
+                        comp = dv
+        if comp is None:
             # a fresh dictionary filled by a loop:  d = {}; for k, v in XS: if <filter>: d[k] = v
             from vk import listform
             for x in ast.walk(e):
